@@ -42,6 +42,16 @@ CHECKS = {
          "Bounded random search aimed at integer boundaries, overflow by one, tuple lengths and nulls for 40 target types.", "Trusts the model of representability; cross-kind conversions are not asserted.", "3/C18"),
  "C19": ("labelled schema mutations against an independent reference validator, with a no-panic oracle",
          "Bounded random search over valid-by-construction schemas with 0-3 of 44 mutation kinds; verdict must equal the reference validator's, which is cross-checked against the labels.", "Trusts the reference validator's reading of the documented rules.", "3/C19"),
+ "C04": ("differential testing of an honest adapter against a hint-pruning adapter on generated worlds, membership decided by a harness model",
+         "Bounded random search; the pruning adapter uses static and dynamic candidates and mandatory edges (one level deep) exactly where the hint API documents them as binding; any change in the row sequence is a violation, attributed to the hint source by re-runs.", "Trusts the candidate membership model and that pruning uses only binding hints.", "3/C04"),
+ "C20": ("fixed full-coverage introspection queries on generated schemas compared with facts computed from the schema AST",
+         "Bounded random search over valid schemas with docs, hierarchies and parameter defaults; results compared as sets; the introspection adapter is also run through check_adapter_invariants.", "Trusts the AST renderer and fact extraction.", "3/C20"),
+ "C22": ("reference interpreter plus metamorphic observer injection on fold-biased worlds",
+         "Bounded random search: engine vs reference, and engine vs engine with observers (count output, inner output, count tag consumed by an always-true sibling-fold filter) added to a filtered fold.", "Trusts the reference interpreter and that the injected observers are semantically neutral.", "3/C22"),
+ "C23": ("metamorphic relations engine-vs-engine on generated worlds",
+         "Bounded random search over eight transformations with known effect (sub/super-multiset, equality, partition, renaming).", "Trusts that each transformation is applied only where its documented precondition holds.", "3/C23"),
+ "C25": ("single-fault injection into a contract-abiding adapter over generated schemas",
+         "Bounded random search over (schema, fault coordinate, fault kind); the checker must fail iff a fault is injected at a coordinate it documents covering.", "Trusts the enumeration of documented-covered coordinates.", "3/C25"),
  "C21": ("invariant over recorded adapter call histories checked against the schema AST and dataset",
          "Bounded random search; every adapter call must name defined types/fields, legal coercions, exactly the declared parameters with predicted values, and instances of the named type.", "Trusts the schema AST model and the recording wrapper.", "3/C21"),
 }
